@@ -209,3 +209,36 @@ func (s *System) SolveCircuit(assignment frontend.Circuit, opts ...solver.Option
 	}
 	return s.CCS.IsSolved(w, opts...)
 }
+
+var glModulus = new(big.Int).SetUint64(0xffffffff00000001)
+
+// TolerantHints replaces the shipped Goldilocks hint functions by versions that compute the same
+// honest outputs but neither panic nor error on out-of-domain operands.  A malicious prover is
+// not bound to the shipped hint code, and gnark's solver runs hints in goroutines where a panic
+// would kill the whole process instead of reporting an unsatisfied system.
+func TolerantHints() []solver.Option {
+	mulAdd := func(_ *big.Int, in, out []*big.Int) error {
+		x := new(big.Int).Mul(in[0], in[1])
+		x.Add(x, in[2])
+		out[0].DivMod(x, glModulus, out[1])
+		return nil
+	}
+	inverse := func(_ *big.Int, in, out []*big.Int) error {
+		x := new(big.Int).Mod(in[0], glModulus)
+		out[0].SetInt64(0)
+		if x.Sign() != 0 {
+			out[0].ModInverse(x, glModulus)
+		}
+		return nil
+	}
+	split := func(_ *big.Int, in, out []*big.Int) error {
+		out[0].Rsh(in[0], 32)
+		out[1].And(in[0], big.NewInt(0xffffffff))
+		return nil
+	}
+	return []solver.Option{
+		solver.OverrideHint(solver.GetHintID(gl.MulAddHint), mulAdd),
+		solver.OverrideHint(solver.GetHintID(gl.InverseHint), inverse),
+		solver.OverrideHint(solver.GetHintID(gl.SplitLimbsHint), split),
+	}
+}
